@@ -12,7 +12,7 @@ so the Coq theorem is about the table the code itself produced on this run.
 """
 import os, re, sys, json, subprocess, glob
 
-V = '/verif'
+V = os.environ.get('VERIF_ROOT') or os.path.dirname(os.path.dirname(os.path.abspath(__file__)))
 REPO = os.environ.get('VERIF_REPO', '/repo')
 CACHER_OF = ['IP', 'TCP', 'EthernetII', 'Dot11Beacon', 'DHCP', 'UDP', 'ICMPv6', 'Dot11QoSData']
 
